@@ -82,7 +82,7 @@ TraceNext == TReset \/ TAwaitCall \/ TQuery \/ TAwaitReturn \/ TStoreCall \/ TSt
 TraceSpec == TraceInit /\ [][TraceNext]_tvars
 Mark == /\ CheckInv("ReadsStored", ReadsStored) /\ CheckInv("CancelSound", CancelSound)
         /\ CheckInv("NoLostWakeup", NoLostWakeup) /\ CheckInv("TypeOK", TypeOK)
-        /\ HWMark
 ActOK == /\ CheckInv("ValueStable", \A k \in DOMAIN data : k \in DOMAIN data' => data'[k] = data[k])
          /\ CheckInv("MismatchNoChange", (\E w \in DOMAIN wr : wr'[w].err /\ ~wr[w].err) => data' = data)
+         /\ HWMarkA
 ====
